@@ -56,6 +56,7 @@ type Report struct {
 	Degraded   []string `json:"degraded"`
 	YieldOnly  bool     `json:"yield_only"`
 	FilesTotal int      `json:"files"`
+	Exported   []string `json:"exported_funcs"`
 }
 
 var (
@@ -126,6 +127,13 @@ func doPackage(dir string) {
 	pkg, err := conf.Check("github.com/peterstace/simplefeatures/"+filepath.ToSlash(dir), fset, files, info)
 	if err != nil {
 		fatalf("type-check %s: %v", dir, err)
+	}
+	for _, f := range files {
+		for _, d := range f.Decls {
+			if fd, ok := d.(*ast.FuncDecl); ok && fd.Recv == nil && fd.Name.IsExported() {
+				report.Exported = append(report.Exported, filepath.Base(dir)+"."+fd.Name.Name)
+			}
+		}
 	}
 	for i, f := range files {
 		fc := &fileCtx{pkg: pkg, info: info, file: f, name: names[i], pkgDir: dir}
